@@ -9,10 +9,16 @@ Open Scope list_scope.
 
 Inductive lobs := OOk (f : lfont) | OErr (e : lerr) | OPanic | OOther.
 Record lcase := LCase {
-  lc_fs : lfs; lc_req : request; lc_garbage : list path; lc_removed : list path; lc_obs : lobs;
+  lc_fs : lfs; lc_req : request;
+  lc_garbage : list path;   (* replaced by a file that parses as nothing (also: a directory replaced
+                               by a plain file or by a link to one) *)
+  lc_dirs : list path;      (* a file replaced by a directory *)
+  lc_removed : list path;   (* removed; a dangling link or a link loop is as good as absent *)
+  lc_obs : lobs;
 }.
-Definition corrupt (gs rs : list path) (m : lfs) : lfs :=
-  foldr (λ p acc, delete p acc) (foldr (λ p acc, <[p := File (LGarbage 7)]> acc) m gs) rs.
+Definition corrupt (gs ds rs : list path) (m : lfs) : lfs :=
+  foldr (λ p acc, delete p acc)
+        (foldr (λ p acc, <[p := Dir]> acc) (foldr (λ p acc, <[p := File (LGarbage 7)]> acc) m gs) ds) rs.
 
 Global Instance layer_lerr_eq_dec : EqDecision layer_lerr. Proof. solve_decision. Defined.
 Global Instance lerr_eq_dec : EqDecision lerr. Proof. solve_decision. Defined.
@@ -29,7 +35,7 @@ Definition lfont_eqb (a b : lfont) : bool :=
   same_keys (lf_data a) (lf_data b) && same_keys (lf_images a) (lf_images b).
 
 Definition run_lcase (c : lcase) : lerr + lfont :=
-  (load (lc_req c) ["u"] (corrupt (lc_garbage c) (lc_removed c) (lc_fs c))).1.
+  (load (lc_req c) ["u"] (corrupt (lc_garbage c) (lc_dirs c) (lc_removed c) (lc_fs c))).1.
 Definition lcase_ok (c : lcase) : bool :=
   match run_lcase c, lc_obs c with
   | inr f, OOk g => lfont_eqb f g
